@@ -640,7 +640,11 @@ func (g *Gen) discharge(fcs []*FnCtx, filter func(*Oblig) bool) {
 							}
 							qf = append(qf, l)
 						}
-						r2 := runPortfolio(o.Name+"/qf", strings.Join(qf, "\n"), to, g.seed)
+						qto := to
+						if qto > 6 {
+							qto = 6 // a vacuity check is not worth more; "cover-undecided" is reported as such
+						}
+						r2 := runPortfolio(o.Name+"/qf", strings.Join(qf, "\n"), qto, g.seed)
 						switch r2.Verdict {
 						case "sat":
 							o.Status = "cover-ok-qf"
